@@ -119,7 +119,8 @@ Definition node_nil_ok (cs : list fclass) (parent_ns : option str) (n : tree) : 
 Definition tree_nil_ok (cs : list fclass) (t : tree) : bool := tree_all (node_nil_ok cs) (root_ns t) t.
 
 (* ------------------------------------------------------------------ JSON analogue *)
-Definition jkey (name : str) : attr := key_attr tag_ELEMENT name None.
+(* build_attr(target, name, ...) splits the JSON key like a qualified name: no namespace for ordinary keys *)
+Definition jkey (name : str) : attr := part_key tag_ELEMENT None name.
 
 Definition json_parts (fs : list (str * json)) : list attr := map (fun kv => jkey (fst kv)) fs.
 
@@ -528,3 +529,28 @@ Definition node_types_ok (cv : sconv) (cs : list fclass) (parent_ns : option str
                          end) (node_part_types cv cns n)
   end.
 Definition tree_types_ok (cv : sconv) (cs : list fclass) (t : tree) : bool := tree_all (node_types_ok cv cs) (root_ns t) t.
+
+(* ------------------------------------------------------------------ well-formed json.load output *)
+(* a Python dict has distinct keys; the top level is an object or an array of objects *)
+Fixpoint nodup_keysb (l : list attr) : bool :=
+  match l with
+  | [] => true
+  | a :: r => negb (existsb (attr_eqb a) r) && nodup_keysb r
+  end.
+
+Fixpoint json_wf (v : json) {struct v} : bool :=
+  match v with
+  | JObj fs => nodup_keysb (map (fun kv => jkey (fst kv)) fs)
+               && (fix fields (fs : list (str * json)) : bool :=
+                     match fs with [] => true | (_, x) :: r => json_wf x && fields r end) fs
+  | JList l => (fix each (l : list json) : bool := match l with [] => true | x :: r => json_wf x && each r end) l
+  | _ => true
+  end.
+
+Definition json_top_wf (v : json) : bool :=
+  json_wf v &&
+  match v with
+  | JObj _ => true
+  | JList l => forallb (fun x => match x with JObj _ => true | _ => false end) l
+  | _ => false
+  end.
